@@ -3,8 +3,8 @@ import os, re
 from common import *
 from props import ir_kernel
 G = os.path.dirname(os.path.dirname(os.path.abspath(__file__)))
-LEVEL_TEXT = 'bounded model checking of the real ItemTraversal::next / AllowlistedItemsTraversal::next / codegen_edges and of the real Trace impls (edge enumeration per IR node) on a stub IR: one step from an arbitrary (seen, queue) state'
-OUTSIDE = ['root selection: regex matching and path_for_allowlisting strings (regex crate not encodable)', 'textual identity of an item between the allowlisted and the full run', 'compiling the subset',
+LEVEL_TEXT = 'bounded model checking of the real ItemTraversal::next / AllowlistedItemsTraversal::next / codegen_edges and of the real Trace impls (edge enumeration per IR node) on a stub IR: one step from an arbitrary (seen, queue) state; plus the real root-selection closure against the documented rule per item kind (pattern sets as answer tables)'
+OUTSIDE = ['regex matching itself and path_for_allowlisting strings (regex crate not encodable: a pattern set is a table of answers; the ^(...)$ wrapper of RegexSet::build is not checked - seeded change C09-m1 is not decided)', 'textual identity of an item between the allowlisted and the full run', 'compiling the subset',
            'composition: queue-subset-of-seen + per-step closure/minimality => on exhaustion seen = exactly the reachable set (paper argument)']
 EXPLANATION = ('Per TypeKind variant: (1) the edges the real Trace impls emit equal the references the IR node holds (opaque items expose no fields/bases); (2) one next() from an arbitrary state yields the queue top, records exactly '
                'its predicate-admitted successors and queues exactly the new ones; (3) the allowlisting wrapper skips blocklisted items but follows their references; (4) codegen_edges equals its documented table.')
@@ -82,4 +82,33 @@ def build(tier, seed):
                 return k
         raise SliceError('tables kernel not available')
     ks.append(kernel_or_error('stdint_tables', tables))
+    def roots():
+        import re
+        fn = extract_from('ir/context.rs', r'^    fn compute_allowlisted_and_codegen_items\(&mut self\) \{')
+        marks = [m.start() for m in re.finditer(r'\.filter\(\|&\(_, item\)\| \{', fn)]
+        if len(marks) != 1:
+            raise SliceError('compute_allowlisted_and_codegen_items: root filter closure not found exactly once')
+        ob = fn.index('{', marks[0])
+        body = fn[ob:match_brace(fn, ob)]
+        if 'allowlisted_vars' not in body or 'name_for_allowlisting' not in body:
+            raise SliceError('root filter closure: shape changed')
+        names = ['Void', 'NullPtr', 'Int', 'Float', 'Complex', 'Array', 'Vector', 'Pointer', 'Reference', 'Function', 'ResolvedTypeRef', 'Opaque', 'TypeParam', 'Enum', 'Comp', 'Alias', 'TemplateAlias', 'TemplateInstantiation',
+                 'UnresolvedTypeRef', 'BlockPointer', 'ObjCInterface', 'ObjCId', 'ObjCSel']
+        gen, hs = [], []
+        for ik, n in ((0, 'module'), (1, 'function'), (2, 'var')):
+            gen.append('#[kani::proof] #[kani::unwind(5)] fn root_%s() { case(%d, 0) }' % (n, ik))
+            hs.append(H('root_' + n, timeout=600, may_unsat=('not selected',) if n == 'module' else (), desc='a %s is an allowlisting root iff the documented rule for its kind says so' % n, sample={'item': n}))
+        for tk, n in enumerate(names):
+            gen.append('#[kani::proof] #[kani::unwind(5)] fn root_type_%s() { case(3, %d) }' % (n, tk))
+            hs.append(H('root_type_' + n, timeout=600, tier='quick' if n in ('Enum', 'Comp', 'Int', 'Alias', 'Opaque') or (tk + seed) % 4 == 0 else 'thorough',
+                        desc='a %s type is an allowlisting root iff the documented rule says so (unnamed top-level enums: through any variant name)' % n, sample={'item': 'type', 'kind': n}))
+        k = Kernel(name='root_selection')
+        k.files = {'src/lib.rs': open(os.path.join(G, 'harness', 'c09_roots.rs')).read().replace('/*CLOSURE_BODY*/', body).replace('/*GENERATED*/', '\n    '.join(gen))}
+        k.harnesses = hs
+        k.encoded = [enc('ir/context.rs', 'compute_allowlisted_and_codegen_items: root filter closure', body)]
+        k.stubs = ['RegexSet: table of answers (own path, parent::variant_k, file name, any other text); an empty set matches nothing', 'paths: known prefix + pushed segments (push / pop / [1..] / join modelled)',
+                   'Item / Type / Enum: the accessors the closure uses', 'is_enabled_for_codegen (first filter) is checked in the traversal kernel']
+        k.bounds = ['enums with <= 3 variants; every item kind and TypeKind variant']
+        return k
+    ks.append(kernel_or_error('root_selection', roots))
     return ks
